@@ -19,6 +19,7 @@ from .. import env
 from ..orch import h
 
 ID = "C18"
+TECHNIQUE = 'runtime monitoring - sliding-window reference model against every is_limited decision: exhaustive arrival sequences per rule set, long random sequences, state-growth measurements, integration through web.start_client (consultations, effects of refusals)'
 LEVEL = "exploration"
 EXHAUSTIVE = {"quick": True, "thorough": True}
 RULE = (
